@@ -21,13 +21,17 @@ RULE = ("cases = recurrence descriptions (mode, notation 1/3/4, repetitions "
         "exact series; non-trivial = at least two points were yielded; "
         "distinct by the description")
 RUN_REPO_SUITE = True   # thorough tier: repo tests under these monitors
-DECIDING = ["series.checked", "init.post", "three-notations"]
+DECIDING = ["series.checked", "init.post", "three-notations",
+            "series.checked-decimal"]
 MIN_EVALS = {"series.checked": 2500, "init.post": 2500,
-             "three-notations": 300}
+             "three-notations": 300, "series.checked-decimal": 300}
 ASSUMPTIONS = [
     "anchors are whole-second points (exact regime); steps are compared by "
     "fields with the reference stepper (exact part, then months, then "
     "years)",
+    "anchors spelled with a decimal fraction (start/duration and "
+    "duration/end notations, exact intervals): first point, step lengths, "
+    "order and count are decided on instants within 1e-5 s",
 ]
 
 
@@ -80,8 +84,20 @@ def classify_far_anchor(kind, case, detail):
     return ref_nonadditive(desc)
 
 
-CLASSIFIERS = {"c12_nominal_bounded_far_anchor": classify_far_anchor}
+def classify_decimal_drop(kind, case, detail):
+    return kind == "series.count-decimal" and \
+        detail.get("float_drop") is True
+
+
+CLASSIFIERS = {"c12_nominal_bounded_far_anchor": classify_far_anchor,
+               "c12_decimal_anchor_float_drop": classify_decimal_drop}
 FINDING_EXAMPLES = {
+    "c12_decimal_anchor_float_drop": {
+        "op": "iterate", "decimal": True, "desc": {
+            "mode": "gregorian", "fmt": 3, "reps": 3,
+            "start": {"year": 2020, "month_of_year": 1, "day_of_month": 1,
+                      "hour_of_day": 6, "hour_of_day_decimal": 0.5},
+            "dur": {"seconds": 90}}},
     "c12_nominal_bounded_far_anchor": {
         "op": "iterate", "desc": {
             "mode": "gregorian", "fmt": 4, "reps": 2,
@@ -111,16 +127,19 @@ class SeriesLog:
         pts = self.points
         if rec._min_point is not None or rec._max_point is not None:
             return
-        for p in pts:
-            if p._truncated or not R.tp_valid(mode, p) or \
-                    not R.tp_is_integral(p):
-                return
         anchors = [x for x in (rec._start_point, rec._end_point)
                    if x is not None]
         d0 = rec._duration
         nominal0 = d0 is not None and not R.dur_is_exact(d0)
-        if any(x._truncated or not R.tp_is_integral(x) or
-               (x._hour_of_day == 24 and nominal0) for x in anchors):
+        if any(p._truncated for p in pts) or \
+                any(x._truncated for x in anchors):
+            return
+        if any(not R.tp_is_integral(x) for x in list(pts) + anchors):
+            return self.finish_decimal(complete, anchors, d0, nominal0)
+        for p in pts:
+            if not R.tp_valid(mode, p):
+                return
+        if any((x._hour_of_day == 24 and nominal0) for x in anchors):
             return      # (24:00 anchors: exact intervals only, R2c)
         ctx.ev("series.checked")
         is_case = ctx.case_rec_id == id(rec)
@@ -182,6 +201,75 @@ class SeriesLog:
         ctx.cls(tag)
         if len(pts) >= 2 and is_case:
             ctx.nontrivial(ctx.case_key)
+
+
+def _finish_decimal(self, complete, anchors, d, nominal):
+    """series whose anchor carries a decimal fraction (tolerance regime R1):
+    exact intervals only; each step must have the interval's length, the
+    order must be strict and the first point must be the anchor, all within
+    TOL seconds; the number of points is compared too, and the one
+    float-rounding outcome "the last point is dropped at the bound" is
+    reported under its own kind"""
+    ctx, rec, mode, pts = self.ctx, self.rec, self.mode, self.points
+    TOL = F(1, 10 ** 5)
+    if nominal or d is None or not d or not R.dur_is_integral(d) or \
+            rec._format_number == 1:
+        return
+    if any(x._hour_of_day == 24 for x in anchors):
+        return
+    if any(not R.tp_valid(mode, p, slack=F(1, 10 ** 6)) for p in pts):
+        return
+    n = rec._repetitions
+    if n == 1:
+        return
+    ctx.ev("series.checked-decimal")
+    is_case = ctx.case_rec_id == id(rec)
+    reverse = rec._start_point is None
+    tag = "decimal/fmt%s/%s" % (rec._format_number,
+                                "bounded" if n else "unbounded")
+
+    def bad(kind, msg, **kw):
+        ctx.violation("series." + kind, "%s: %s; recurrence %s yielded %s" % (
+            tag, msg, _rec_key(rec), [R.tp_key(p) for p in pts[:6]]),
+            rec_id_is_case=is_case, **kw)
+    if not pts:
+        if complete:
+            bad("empty", "no point yielded")
+        return
+    first = rec._end_point if reverse else rec._start_point
+    insts = [R.tp_instant(mode, p) for p in pts]
+    if abs(insts[0] - R.tp_instant(mode, first)) > TOL:
+        return bad("first", "first point is not the anchor")
+    step = R.dur_len(d) * (-1 if reverse else 1)
+    for a, b in zip(insts, insts[1:]):
+        if abs((b - a) - step) > TOL:
+            return bad("step", "consecutive points are %s s apart, the "
+                       "interval is %s s" % (float(b - a), float(step)))
+    if complete and n is not None and len(pts) < 400:
+        if len(pts) == n - 1 and rec._end_point is not None:
+            # the library's own next step lands beyond the end bound by
+            # float rounding only (less than TOL)?
+            try:
+                nxt = pts[-1] + d
+                excess = R.tp_instant(mode, nxt) - \
+                    R.tp_instant(mode, rec._end_point)
+            except Exception:
+                excess = None
+            if excess is not None and 0 < excess <= TOL:
+                return bad("count-decimal", "%d repetitions but %d points: "
+                           "the last step lands %.3g s beyond the end bound "
+                           "by float rounding and is dropped" % (
+                               n, len(pts), float(excess)),
+                           float_drop=True)
+        if len(pts) != n:
+            return bad("count", "%d repetitions but %d points" % (
+                n, len(pts)))
+    ctx.cls(tag)
+    if len(pts) >= 2 and is_case:
+        ctx.nontrivial(ctx.case_key)
+
+
+SeriesLog.finish_decimal = _finish_decimal
 
 
 def _same(p, q):
@@ -255,6 +343,9 @@ def install(ctx, repo, probes):
     for mode in R.MODES:
         ctx.target("mode/" + mode)
     ctx.target("anchor-24:00", "reentrant-iteration")
+    for fmt in (3, 4):
+        for kind in ("bounded", "unbounded"):
+            ctx.target("decimal/fmt%d/%s" % (fmt, kind))
 
 
 def given_anchor_instant(desc):
@@ -285,7 +376,7 @@ def consume(rec, limit):
 def run_case(ctx, repo, case):
     desc = case["desc"]
     mode = desc["mode"]
-    repo.set_mode(mode)
+    repo.set_mode(mode, case)
     try:
         ctx.expect_init_ok = True
         try:
@@ -295,7 +386,8 @@ def run_case(ctx, repo, case):
         finally:
             ctx.expect_init_ok = False
         ctx.case_rec_id = id(rec)
-        ctx.case_given_anchor = given_anchor_instant(desc)
+        ctx.case_given_anchor = None if case.get("decimal") else \
+            given_anchor_instant(desc)
         # the object must carry what was asked for (the series checker reads
         # repetitions and interval from the object)
         ctx.ev("ctor.check")
@@ -409,6 +501,20 @@ def workload(ctx, repo):
             case = {"op": "iterate", "desc": desc}
             ctx.case = case
             run_case(ctx, repo, case)
+    for k in range(n // 6):
+        # anchors spelled with a decimal fraction (hh,h / hh:mm,m / ss,s)
+        mode = R.MODES[k % 4] if k % 2 else "gregorian"
+        desc = recgen.make(rng, mode, fmt=rng.choice((3, 4)),
+                           reps=rng.choice((None, 2, 3, 5, 9)),
+                           interval="exact")
+        a = desc["end"] if desc["fmt"] == 4 else desc["start"]
+        for key in ("hour_of_day", "minute_of_hour", "second_of_minute"):
+            a.pop(key, None)
+        a.update(gen.time_kwargs(rng, rng.choice(("hm", "h", "hmsf")),
+                                 integral=False))
+        case = {"op": "iterate", "desc": desc, "decimal": True}
+        ctx.case = case
+        run_case(ctx, repo, case)
     for k in range(n):
         mode = R.MODES[k % 4] if k % 2 else "gregorian"
         if k % 8 == 0:
